@@ -549,7 +549,14 @@ var knownTable = []knownEntry{
 	}},
 	// KF-C38-2: HeadObject (and GetObject, which starts with a HeadObject) maps every 404 to ErrNoSuchBucket
 	{known{"c38.notFoundAsNoSuchBucket", "KF-C38-2", false}, func(c string) bool {
-		return c == "head/err/NoSuchBucket<-NoSuchKey" || c == "get/err/NoSuchBucket<-NoSuchKey"
+		for _, k := range []string{"head", "get"} {
+			for _, e := range []string{"NoSuchKey", "CurrentDeleteMarker", "VersionIsDeleteMarker"} {
+				if c == k+"/err/NoSuchBucket<-"+e {
+					return true
+				}
+			}
+		}
+		return false
 	}},
 	// KF-C38-3: ListMultipartUploads dereferences optional response fields that are absent
 	{known{"c38.listUploadsPanics", "KF-C38-3", false}, func(c string) bool { return c == "q.listUploads/err/Panic<-ok" }},
@@ -557,6 +564,8 @@ var knownTable = []knownEntry{
 	{known{"c38.putTagsDropped", "KF-C38-4", true}, func(c string) bool { return c == "put/tagsDropped" }},
 	// KF-C38-5: PutObject / CopyObject results carry no version id
 	{known{"c38.versionIdNotReturned", "KF-C38-5", false}, func(c string) bool { return c == "put/version" || c == "copy/version" || c == "delete/version" }},
+	// KF-C38-6: CopyObject does not forward ReplaceTags / Tags (detected right after the copy; states diverged)
+	{known{"c38.copyTagsNotReplaced", "KF-C38-6", true}, func(c string) bool { return c == "copy/tagsNotReplaced" }},
 }
 
 // survey (development aid, VERIF_C38_SURVEY=1): tolerate every discrepancy and
